@@ -53,24 +53,24 @@ correspondence suite identifies with the compiler's output) -/
 /-- **C03 on the core**: every terminating core program, for every argument vector and in every
 configuration whose stack holds the frame peak, never reaches the halted state on its committed
 timeline. -/
-theorem core_never_halts (cf : Core.Config) (params : List String) (args : List Int) (body : Core.S) (hw : 2 ≤ cf.w)
-    (hB : Core.funcLen cf.checked body + stdlibLength < 256 ^ cf.w) (hSE : Core.F0 cf args < 256 ^ cf.w)
-    (hnd : params.Nodup) (hlen : args.length = params.length)
-    (hwf : Core.wfS params body = true) (hyl : Core.youLevel body = true)
+theorem core_never_halts (cf : Core.Config) (args : List Int) (pr : Core.CProg) (hw : 2 ≤ cf.w)
+    (hB : Core.progLen cf.checked pr + stdlibLength < 256 ^ cf.w) (hSE : Core.F0 cf args < 256 ^ cf.w)
+    (hwf : Core.wfProg pr = true) (hlen : args.length = pr.params.length)
     (fuel : Nat) (env' : Core.Env) (tr : List Ev) (res : Core.Res)
-    (hex : Core.exec (256 ^ cf.w) (8 * cf.w) fuel (Core.argEnv (256 ^ cf.w) params args) body = some (env', tr, res))
+    (hex : Core.srcRun cf fuel args pr = some (env', tr, res))
     (hck : res = .div0 → cf.checked = true)
-    (hroom : Core.pkS cf.w (Core.entryOff cf.w params) body ≤ cf.stackWords * cf.w + args.length * cf.w + cf.w) :
-    C03_statement (Core.coreProg cf params body) (Core.coreInit cf args body) :=
-  (Core.core_correct cf params args body hw hB hSE hnd hlen hwf hyl fuel env' tr res hex hck hroom).choose_spec.2
+    (hroom : Core.pkS cf.w (Core.entryOff cf.w pr.params) pr.body ≤ Core.roomOf cf args) :
+    C03_statement (Core.coreProg cf pr) (Core.coreInit cf args pr) :=
+  (Core.core_correct cf args pr hw hB hSE hwf hlen fuel env' tr res hex hck hroom).choose_spec.2
 
 /-- … and neither does a checked build whose stack is too small: it ends in `stack_overflow` -/
-theorem core_overflow_never_halts (cf : Core.Config) (params : List String) (args : List Int) (body : Core.S)
+theorem core_overflow_never_halts (cf : Core.Config) (args : List Int) (pr : Core.CProg)
     (hw : 2 ≤ cf.w) (hck : cf.checked = true)
-    (hB : Core.funcLen cf.checked body + stdlibLength < 256 ^ cf.w) (hSE : Core.F0 cf args < 256 ^ cf.w)
-    (hsmall : cf.stackWords * cf.w + args.length * cf.w + cf.w < Core.pkS cf.w (Core.entryOff cf.w params) body)
-    (hpkM : Core.pkS cf.w (Core.entryOff cf.w params) body < 256 ^ cf.w) :
-    C03_statement (Core.coreProg cf params body) (Core.coreInit cf args body) :=
-  (Core.core_overflow cf params args body hw hck hB hSE hsmall hpkM).choose_spec.2
+    (hB : Core.progLen cf.checked pr + stdlibLength < 256 ^ cf.w) (hSE : Core.F0 cf args < 256 ^ cf.w)
+    (hnd : pr.params.Nodup) (hlen : args.length = pr.params.length)
+    (hsmall : Core.roomOf cf args < Core.pkS cf.w (Core.entryOff cf.w pr.params) pr.body)
+    (hpkM : Core.pkS cf.w (Core.entryOff cf.w pr.params) pr.body < 256 ^ cf.w) :
+    C03_statement (Core.coreProg cf pr) (Core.coreInit cf args pr) :=
+  (Core.core_overflow cf args pr hw hck hB hSE hnd hlen hsmall hpkM).choose_spec.2
 
 end HidVerif.Props.C03
